@@ -55,6 +55,7 @@ Definition sadssd_raw (pw : Z -> Z -> Z) (inp : mc_input) (D r c : Z) : option Z
 Definition census_raw (inp : mc_input) (D r c : Z) : option Z :=
   let ny := i_ny inp in let nx := i_nx inp in let s := i_s inp in let w := i_w inp in
   let off := offset w in
+  if too_small ny nx w then None else      (* all-NaN volume when no window fits in the image *)
   let Rs := shifted_images inp in
   let cl := memo2 (ny - 2 * off) (nx - 2 * off) (census_transform w (i_L inp)) in
   let cr := memo1 s (fun i => memo2 (ny - 2 * off) (nx - 2 * off) (census_transform w (Rs i))) in
@@ -63,6 +64,7 @@ Definition census_raw (inp : mc_input) (D r c : Z) : option Z :=
 Definition zncc_raw (inp : mc_input) (D r c : Z) : option (Z * Z * Z) :=
   let ny := i_ny inp in let nx := i_nx inp in let s := i_s inp in let w := i_w inp in
   let off := offset w in
+  if too_small ny nx w then None else
   let Rs := shifted_images inp in
   let ml := memo2 (ny - 2 * off) (nx - 2 * off) (sum_raster w ny nx (i_L inp)) in
   let vl := memo2 (ny - 2 * off) (nx - 2 * off) (var_raster w ny nx (i_L inp)) in
@@ -99,12 +101,16 @@ Proof.
   - unfold ssd_volume, sadssd_volume_z. cbv zeta. rewrite memo3_eq.
     rewrite (cv_masked_cell inp dmin dmax _ r c k Hk). cbv zeta. rewrite memo1_eq, memo2_eq.
     destruct (in_pixel_interval _ _ _ r c _); reflexivity.
-  - unfold census_volume, census_volume_z. cbv zeta. rewrite memo3_eq.
-    rewrite (cv_masked_cell inp dmin dmax _ r c k Hk). cbv zeta. rewrite memo1_eq, memo2_eq.
-    destruct (in_pixel_interval _ _ _ r c _); reflexivity.
-  - unfold zncc_volume. cbv zeta. rewrite memo3_eq.
-    rewrite (cv_masked_cell inp dmin dmax _ r c k Hk). cbv zeta. rewrite memo1_eq, memo2_eq.
-    destruct (in_pixel_interval _ _ _ r c _); reflexivity.
+  - unfold census_volume, census_volume_z, census_raw. cbv zeta. rewrite memo3_eq.
+    rewrite (cv_masked_cell inp dmin dmax _ r c k Hk). cbv zeta.
+    destruct (too_small (i_ny inp) (i_nx inp) (i_w inp)).
+    + destruct (in_pixel_interval _ _ _ r c _); reflexivity.
+    + rewrite memo1_eq, memo2_eq. destruct (in_pixel_interval _ _ _ r c _); reflexivity.
+  - unfold zncc_volume, zncc_raw. cbv zeta. rewrite memo3_eq.
+    rewrite (cv_masked_cell inp dmin dmax _ r c k Hk). cbv zeta.
+    destruct (too_small (i_ny inp) (i_nx inp) (i_w inp)).
+    + destruct (in_pixel_interval _ _ _ r c _); reflexivity.
+    + rewrite memo1_eq, memo2_eq. destruct (in_pixel_interval _ _ _ r c _); reflexivity.
 Qed.
 
 (* ------------------------------------------------------------------ two runs, one sample *)
